@@ -188,7 +188,14 @@ func invalidValueEncoder(e *encodeState, _ ugo.Object, _ encOpts) {
 	e.WriteString("null")
 }
 
-func noopEncoder(_ *encodeState, _ ugo.Object, _ encOpts) {}
+func noopEncoder(e *encodeState, _ ugo.Object, _ encOpts) {
+	// An unsupported value is ignored (no output) when it is the whole
+	// document but inside an array or a map writing nothing produces a
+	// malformed document e.g. {"a":} or [1,,2].
+	if e.Len() > 0 {
+		e.WriteString("null")
+	}
+}
 
 func optionsEncoder(e *encodeState, v ugo.Object, opts encOpts) {
 	opts.quoted = v.(*EncoderOptions).Quote
